@@ -32,6 +32,7 @@ LEVEL_TEXT = (
     "with the maximum of that trace; nested initialisation is compared before any optimisation. Sampled over pairs, "
     "data sets and optimiser settings."
     " The richer function is also prepared with its own starting values or a short fit before it is initialised; the hypothesis app is driven with alternates nested by time-heterogeneity only, and the statistics of its result are compared with the functions it holds after those were continued in place."
+    " Nested hypotheses may hold a branch at exactly zero length, as a constant or as a free estimate."
 )
 LEVEL_NOTE = "trusted: the likelihood value itself (decided by C02/C07); simulated annealing seeded through its `seed` argument"
 TECHNIQUE = "runtime monitoring: evaluation-trace recorder at a wrapped calculator boundary + before/after assertions"
